@@ -1,9 +1,18 @@
 (* C07: what unblock() does on any configuration reachable with producers stopped at arbitrary
    points (a dead producer is a thread that is never scheduled again, so the invariant of
    Proofs/RingConc.v holds unchanged), the consumer being between two reads. *)
-Require Import V.Base.MachineInt V.Generated.GenConsts V.Model.LogBase V.Model.Ring V.Model.RingThreads
-               V.Spec.Fifo V.Proofs.RingArith V.Proofs.RingSeq V.Proofs.RingRender V.Proofs.RingSeqRun
-               V.Proofs.RingConc V.Proofs.RingConcThm.
+Require Import V.Base.MachineInt.
+Require Import V.Generated.GenConsts.
+Require Import V.Model.LogBase.
+Require Import V.Model.Ring.
+Require Import V.Model.RingThreads.
+Require Import V.Spec.Fifo.
+Require Import V.Proofs.RingArith.
+Require Import V.Proofs.RingSeq.
+Require Import V.Proofs.RingRender.
+Require Import V.Proofs.RingSeqRun.
+Require Import V.Proofs.RingConc.
+Require Import V.Proofs.RingConcThm.
 From Coq Require Import ZifyBool Lia.
 Open Scope Z_scope.
 
